@@ -111,7 +111,7 @@ def scenario_duplex(rng, d):
 def scenario_subprocess(rng, d, exe):
     size = rng.choice([0, 1, 4096, 65536, 65537, 500000])
     code = rng.choice([0, 1, 3, 7, 42, 127, 255])
-    variant = rng.choice(["echo", "echo", "stderr", "merge", "execute", "signal"])
+    variant = rng.choice(["echo", "echo", "stderr", "merge", "execute", "signal", "shared-pipe", "shared-file"])
     lines = [PRELUDE]
     lines.append("(def payload (pattern 3 %d))" % size)
     if variant == "echo":
@@ -134,6 +134,22 @@ def scenario_subprocess(rng, d, exe):
         lines.append("(def o (or (op \"r-out\" (ev/read (p :out) :all)) @\"\"))")
         lines.append("(verdict \"child-merged\" o \"out1 err1 out2\")")
         lines.append("(print \"EXIT \" (op \"wait\" (os/proc-wait p)))")
+    elif variant == "shared-pipe":
+        # one user-supplied stream given for two of the child's descriptors
+        child = "(prin \"out1 \") (flush) (eprin \"err1 \") (eflush) (prin \"out2\") (flush) (os/exit %d)" % code
+        lines.append("(def [rd wr] (os/pipe))")
+        lines.append('(def p (op "spawn" (os/spawn ["%s" "-e" %s] :p {:out wr :err wr})))' % (exe, repr_j(child)))
+        lines.append("(ev/close wr)")
+        lines.append("(def o (or (op \"r-shared\" (ev/read rd :all)) @\"\"))")
+        lines.append("(verdict \"child-shared-pipe\" o \"out1 err1 out2\")")
+        lines.append("(print \"EXIT \" (op \"wait\" (os/proc-wait p)))")
+    elif variant == "shared-file":
+        child = "(prin \"out1 \") (flush) (eprin \"err1 \") (eflush) (prin \"out2\") (flush) (os/exit %d)" % code
+        fpath = os.path.join(d, "shared-out.txt")
+        lines.append('(def f (file/open "%s" :w))' % fpath)
+        lines.append('(print "EXIT " (op "execute" (os/execute ["%s" "-e" %s] :p {:out f :err f})))' % (exe, repr_j(child)))
+        lines.append("(file/close f)")
+        lines.append('(verdict "child-shared-file" (slurp "%s") "out1 err1 out2")' % fpath)
     elif variant == "execute":
         lines.append('(print "EXIT " (op "execute" (os/execute ["%s" "-e" "(os/exit %d)"] :p)))' % (exe, code))
     else:
